@@ -489,8 +489,11 @@ func init() {
 						low := index & (1<<uint(lowBits) - 1)
 						switch corr {
 						case "leaf":
-							leaf[r.Intn(w)] = ref.Add(leaf[r.Intn(w)], 1)
-							leaf[0] = ref.Add(leaf[0], 1)
+							k := r.Intn(w)
+							if r.Intn(3) == 0 {
+								k = w - 1
+							}
+							leaf[k] = ref.Add(leaf[k], 1) // exactly one element
 						case "sibling":
 							if len(sb) == 0 {
 								continue
